@@ -368,10 +368,11 @@ impl Ctx {
         if counting && self.samples.len() < self.sample_budget && (first_of_sub || self.cases + 1 >= self.next_sample_at) {
             rec.want_note = true;
         }
-        CUR_INPUT.store(input as *const Input as *mut Input, Ordering::Release);
-        CUR_START_MS.store(now_ms(), Ordering::Release);
+        let slot = my_slot();
+        slot.start_ms.store(now_ms(), Ordering::Release);
+        slot.input.store(input as *const Input as *mut Input, Ordering::Release);
         let v = check(sub, cfg, input, &mut rec);
-        CUR_INPUT.store(std::ptr::null_mut(), Ordering::Release);
+        slot.input.store(std::ptr::null_mut(), Ordering::Release);
         let v = match v {
             Verdict::Known { sig, expected, observed } if !self.is_listed(sig) => Verdict::Fail {
                 expected,
@@ -512,6 +513,9 @@ impl Ctx {
             cases,
             failure_persistence: None,
             max_shrink_iters: 20_000,
+            // only ever reached when single cases are pathologically slow (a hanging command-line tool):
+            // ordinary shrinking ends within seconds, long before this bound, so replay files stay reproducible
+            max_shrink_time: 900_000,
             max_global_rejects: 1_000_000,
             rng_seed: RngSeed::Fixed(seed),
             verbose: 0,
@@ -938,8 +942,27 @@ pub fn infra_error(msg: &str) -> ! {
 // CASE_LIMIT_MS is non-termination for C01 and "inconclusive" for every other property;
 // a whole run exceeding its wall budget is always "inconclusive".
 
-static CUR_INPUT: AtomicPtr<Input> = AtomicPtr::new(std::ptr::null_mut());
-static CUR_START_MS: AtomicU64 = AtomicU64::new(0);
+// One slot per worker thread (sharded sub-checks run up to 12 at once): a thread that is stuck keeps
+// its own slot, whatever the others do.
+pub struct Slot {
+    input: AtomicPtr<Input>,
+    start_ms: AtomicU64,
+}
+static SLOTS: std::sync::Mutex<Vec<std::sync::Arc<Slot>>> = std::sync::Mutex::new(Vec::new());
+thread_local! {
+    static MY_SLOT: std::sync::Arc<Slot> = {
+        let s = std::sync::Arc::new(Slot { input: AtomicPtr::new(std::ptr::null_mut()), start_ms: AtomicU64::new(0) });
+        SLOTS.lock().unwrap_or_else(|e| e.into_inner()).push(s.clone());
+        s
+    };
+}
+/// a check that legitimately waits on a child process restarts its own clock around the wait
+pub fn watchdog_touch() {
+    MY_SLOT.with(|s| s.start_ms.store(now_ms(), Ordering::Release));
+}
+fn my_slot() -> std::sync::Arc<Slot> {
+    MY_SLOT.with(|s| s.clone())
+}
 static EPOCH: std::sync::OnceLock<Instant> = std::sync::OnceLock::new();
 
 fn now_ms() -> u64 {
@@ -961,21 +984,25 @@ pub fn start_watchdog(prop: &'static str, tier: Tier, seed: u64) {
             if t0.elapsed().as_secs() > budget_s {
                 infra_error(&format!("{} {}: wall-clock budget of {} s exceeded; inconclusive", prop, tier.name(), budget_s));
             }
-            let p = CUR_INPUT.load(Ordering::Acquire);
-            if p.is_null() {
-                continue;
-            }
-            let started = CUR_START_MS.load(Ordering::Acquire);
-            if now_ms().saturating_sub(started) > CASE_LIMIT_MS {
+            let slots: Vec<std::sync::Arc<Slot>> = SLOTS.lock().unwrap_or_else(|e| e.into_inner()).clone();
+            for slot in slots {
+                let p = slot.input.load(Ordering::Acquire);
+                if p.is_null() {
+                    continue;
+                }
+                let started = slot.start_ms.load(Ordering::Acquire);
+                if now_ms().saturating_sub(started) <= CASE_LIMIT_MS {
+                    continue;
+                }
                 // re-check that it is still the same case
-                if CUR_INPUT.load(Ordering::Acquire) != p || CUR_START_MS.load(Ordering::Acquire) != started {
+                if slot.input.load(Ordering::Acquire) != p || slot.start_ms.load(Ordering::Acquire) != started {
                     continue;
                 }
                 if prop != "C01" {
                     infra_error(&format!("{}: one case has been running for more than {} ms; inconclusive", prop, CASE_LIMIT_MS));
                 }
-                // SAFETY: the worker is stuck inside the call that borrows this input, so the
-                // referent is alive; we only read it.
+                // SAFETY: the worker that owns this slot is stuck inside the call that borrows this
+                // input (pointer and start time unchanged), so the referent is alive; we only read it.
                 let input = unsafe { (*p).clone() };
                 let body = json!({
                     "property": "C01", "sub": "non-termination", "config": "all", "input": input.to_json(),
